@@ -328,6 +328,11 @@ def r6(c):
     c.ob('eof', okeof and len(ke) == 1, 'a read of 0 bytes is reported as UnexpectedEof (the session ends, the parser does not spin)', '%d Err exits' % len(eof), loc_of(b))
     # `end += count` on the non-zero edge
     adds = [(i, s) for i, s in b.assigns() if s['rv']['r'] == 'bin' and s['rv']['op'] in ('AddWithOverflow', 'Add') and any(is_count(a) for a in s['rv']['a'])]
+    # (only the sum that is stored into `end`: the byte count may be added to other things for logging)
+    end_stores = [s_ for _, s_ in b.assigns() if s_['pl']['p'] and s_['pl']['p'][-1].endswith(':end') and s_['rv']['r'] == 'use']
+    into_end = [(i, s) for i, s in adds if any(('l', s['pl']['l']) in b.op_closure(st['rv']['a'][0]) or (st['rv']['a'][0].get('pl') or {}).get('l') == s['pl']['l'] for st in end_stores)]
+    if into_end:
+        adds = into_end
     okadd = len(adds) == 1 and q.has_fact(b, ('b', adds[0][0]), 'ne', is_count, lambda o: q.const_val(b, o) == 0, facts)
     c.ob('advance-end', okadd, '`end` advances by exactly the number of bytes read', '%d additions' % len(adds), loc_of(b))
     # compaction
@@ -427,11 +432,17 @@ def r7(c):
         c.saw(b, len(b.calls()))
         rs = b.calls(FR_RESET)
         st = b.calls(step)
-        ok = len(rs) == 1 and len(st) == 1 and not b.in_cycle(rs[0].node) and b.dominates(rs[0].ret, st[0].node)
+        ok = len(rs) >= 1 and len(st) == 1 and not any(b.in_cycle(x.node) for x in rs)
+        if ok and not (len(rs) == 1 and b.dominates(rs[0].ret, st[0].node)):
+            # the other placement: not before the receive loop but after it, on every way out of the session that can be
+            # followed by another one (a reader is empty when built; Shutdown ends the task)
+            down = [e for e, _ in q.arms_of(b, 'rodbus::client::task::SessionError').get('Shutdown', [])] if 'client' in f else []
+            ok = all(not b.reaches(x.ret, st[0].node) for x in rs) and q.always_passes(b, st[0].ret, {x.node for x in rs}, escapes=down)[0]
         if ok:
-            a = q.sem(b, rs[0].args[0])
-            ok = q.sem_is_name(b, a, 'self') and any('reader' in p for p in a.proj)
-        c.ob('reset/%s' % f.split('::')[-2], ok, '%s resets self.reader once, before its receive loop' % f, '%d reset calls' % len(rs), loc_of(b), kind='session-start')
+            for x in rs:
+                a = q.sem(b, x.args[0])
+                ok = ok and q.sem_is_name(b, a, 'self') and any('reader' in p for p in a.proj)
+        c.ob('reset/%s' % f.split('::')[-2], ok, '%s resets self.reader once per session: before its receive loop, or after it on every way out that another session can follow' % f, '%d reset calls' % len(rs), loc_of(b), kind='session-start')
     r = P.fn(FR_RESET)
     pr = [cs for cs in r.calls('rodbus::common::frame::FrameParser::reset')]
     cl = [cs for cs in r.calls(RB + '::clear')]
